@@ -148,6 +148,17 @@ static void verify_all(world_t *w, const unsigned char *imprint, size_t n, int h
 	vf_count("impl_calls", 1);
 	judge(w, "verifier", exp, rc, rc == KSI_OK && res != NULL, res ? (int)res->finalResult.resultCode : -1, res ? (int)res->finalResult.errorCode : -1, detail);
 	KSI_PolicyVerificationResult_free(res);
+	if (all_apis) {
+		/* a context that is reused: KSI_VerificationContext_clean frees the temporary data of the last verification; the document hash
+		 * and level the caller put into the context still decide the next one (the caller names the signature again) */
+		res = NULL;
+		KSI_VerificationContext_clean(&w->vc);
+		w->vc.signature = w->sig;
+		rc = KSI_SignatureVerifier_verify(w->policy, &w->vc, &res);
+		vf_count("impl_calls", 1);
+		judge(w, "verifier-after-clean", exp, rc, rc == KSI_OK && res != NULL, res ? (int)res->finalResult.resultCode : -1, res ? (int)res->finalResult.errorCode : -1, detail);
+		KSI_PolicyVerificationResult_free(res);
+	}
 	w->vc.documentHash = NULL; w->vc.docAggrLevel = 0;
 	if (all_apis) {
 		/* (2) helper with hash and level as arguments and the anchors in a caller-supplied context */
